@@ -79,7 +79,7 @@ def check_day_carry(run, fx):
         return
     from ..terms import walk, show
     D = "temporal_rs::options::Disambiguation::"
-    lst = next((p["name"] for p in f.params if p["ty"].startswith("alloc::vec::Vec<")), None)
+    lst = next((p["name"] for p in f.params if p["ty"].startswith("alloc::vec::Vec<") or p["ty"].lstrip("&").startswith("[")), None)
     dpi = next((i for i, p in enumerate(f.params) if p["ty"].endswith("options::Disambiguation")), None)
     if lst is None or dpi is None:
         run.anchor_missing(rule, "params", "candidate list / disambiguation parameters not found", f.loc)
